@@ -774,6 +774,14 @@ func (ev *Env) call(x *ast.CallExpr) Val {
 			}
 		}
 		return boolV(and("(<= "+ev.pre.get(ev.fx, "G|alloc")+" "+r+")", "(< "+r+" "+ev.post.get(ev.fx, "G|alloc")+")"))
+	case "private":
+		// the backing array was allocated during the current entry-point execution (not visible to its caller)
+		v := arg(0)
+		r := v.L[0]
+		if v.T != nil && isByteSlice(v.T) && !v.Mut {
+			r = v.L[1]
+		}
+		return boolV("(priv " + r + ")")
 	case "allocated":
 		v := arg(0)
 		r := v.L[0]
